@@ -218,8 +218,16 @@ output_instance(std::ostream &out, int indent_level, CPPScope *scope,
 
   std::string bracketsstr = brackets.str();
 
-  _element_type->output_instance(out, indent_level, scope, complete,
-                                 prename, name + bracketsstr);
+  if (prename.empty()) {
+    _element_type->output_instance(out, indent_level, scope, complete,
+                                   prename, name + bracketsstr);
+  } else {
+    // A pointer or reference to an array: the pointer/reference operator
+    // binds less tightly than the brackets, so it needs parentheses, as in
+    // int (*a)[3] or int (&a)[3].
+    _element_type->output_instance(out, indent_level, scope, complete,
+                                   "", "(" + prename + name + ")" + bracketsstr);
+  }
 }
 
 /**
